@@ -245,6 +245,14 @@ def t_shape(arg, acc):
             for p in (5e-6, 2.0, 4e-9, 3e-12):
                 for o in (1, 2, 3):
                     chk_units({'kind': 'units', 'blur': kind, 'shape': shape, 'extent': ext, 'p': p, 'o': o}, acc, seed)
+                    if kind == 'smear' and p in (5e-6, 2.0):
+                        for ang in (0, 90, 270, -90, 180):       # axis-aligned directions x oversampling (w9-C19-1)
+                            chk_units({'kind': 'units', 'blur': kind, 'shape': shape, 'extent': ext, 'p': p, 'o': o, 'angle': ang}, acc, seed)
+    if shape == SHAPES[0] and kind != 'pixel':
+        # strongly elongated frames with an extent between the short and the long side (w9-C19-2)
+        for el in ((5, 64), (64, 5), (9, 201)):
+            for ext in (8.0, 12.0):
+                chk({'kind': 'blur', 'blur': kind, 'shape': el, 'extent': ext, 'angle': 30, 'impulses': False}, acc, seed)
 
 
 def run(tier, seed, acc, procs=None):
